@@ -687,4 +687,14 @@ example : (runLog BarrierT.step (BarrierT.init 1 1) [.c (.inv 0 .wait), .c (.pol
 example : (runLog BarrierT.step (BarrierT.init 2 2) (exampleLogT.take 15 ++ [.c (.poll 0 0 2)])).isSome = false := by
   decide
 
+/-- The model does **not** build the atomicity of the adjustment in: put a thread at the
+    `fetch_sub` of `arrive_and_drop` while another one is between the load and the store (no
+    well-formed client gets there — the standard makes calling `arrive_and_drop` during the
+    completion step undefined — and `C09T_adjust_window_exclusive` proves it unreachable), and the
+    two-step code loses the drop: the `fetch_sub` is accepted and the store overwrites it. -/
+example : ((runLog BarrierT.step (BarrierT.init 2 2) (exampleLogT.take 13)).bind fun s =>
+      (runLog BarrierT.step { s with c := { s.c with pc := upd s.c.pc 0 .wantDrop } }
+        [.c (.adj 0), .adjStore 1]).map fun s' => (s'.lost, s'.c.adj, s'.c.expected)) = some (1, 0, 2) := by
+  decide
+
 end PikaVerif.C09Barrier
